@@ -983,6 +983,14 @@ class CrashPrefix(Component):
             f['chunks'] = gen.join([rng.randint(1, max(1, frames * unit)) for _ in range(rng.randint(0, 3))])
             f['pcm'] = gen.join(pcm)
             out.append('crash ' + gen.fields_str(f))
+            # the same encode with MORE data than the declared total: the block that would overshoot must be refused and nothing of it
+            # may reach the stream, so that the abandoned file still decodes to every frame it holds
+            if i % 4 == 0 and nblocks >= 2:
+                g = dict(f)
+                short = rng.choice([bs * rng.randint(1, nblocks - 1), bs * rng.randint(1, nblocks - 1) + rng.choice([1, 5, bs - 1])])
+                g['total'] = short * unit
+                g['overfill'] = 1
+                out.append('crash ' + gen.fields_str(g))
         return out
     def oracle(self, case, impl, profile):
         op, cf = parse_case(case)
@@ -994,6 +1002,12 @@ class CrashPrefix(Component):
         ends = ints(f['ends']); lens = ints(f['lens']); metalen = int(f['metalen'])
         # the frames written before finalize are the whole blocks of the input, whatever the readers make of them
         whole = (len(ints(cf['pcm'])) // int(cf['ch'])) // int(cf['bs'])
+        if cf.get('overfill') == '1':
+            # only the blocks that fit the declared total may have been written
+            ch0 = int(cf['ch']); unit0 = {'byte': ch0 * ((int(cf['bps']) + 7) // 8), 'sample': ch0, 'chan': 1}[cf['fe']]
+            whole = min(whole, (int(cf['total']) // unit0) // int(cf['bs']))
+            if 'refused' not in f:
+                return ('crash:overfill-accepted', 'more samples than the declared total were written and no write was refused')
         if len(ends) != whole or any(l != int(cf['bs']) for l in lens):
             return ('crash:frames-unreadable', f'{whole} whole blocks of {cf["bs"]} were written before finalize but the unfinished file parses into frames of {lens}')
         declared = 'total' in cf
@@ -1108,6 +1122,10 @@ class CtorGrid(Component):
                         return (f'ctor:exact-fill-refused:{cls}', 'writing exactly the declared length failed: ' + impl[:120])
                     if fill != d and h == 'ok':
                         return ('ctor:length-contract:' + ('over' if fill > d else 'under'), f'declared {d} PCM frames, wrote {fill}, and finalize reported success')
+                elif t > 0 and h == 'ok' and fill * unit != t:
+                    # a declared total that is not a whole number of PCM frames: whatever the constructor makes of it, the units written
+                    # differ from the units declared, and neither the constructor, nor a write, nor finalize reported anything
+                    return ('ctor:length-contract:fractional', f'declared {t} units (not a whole number of PCM frames), wrote {fill * unit}, and nothing was reported')
         return None
     def nontrivial(self, case, impl):
         return True
